@@ -56,6 +56,22 @@ T = {
  'C09-C': ('C09', 'TypeDef::find_case_index compares case names ignoring ASCII case', 'a variant type with two cases differing only in letter case, constructing the later one'),
  'C09-D': ('C09', 'map entries sorted by key when encoded as Plutus Data', 'a datum / redeemer map whose keys are not in ascending order'),
  'C10-C': ('C10', 'process-wide cache of Plutus language views keyed by language only', 'two compilers with different cost models for one language compiling transactions with redeemers in one process'),
+ 'C11-C': ('C11', 'byte fields written as CBOR byte strings and read back with deserialize_bytes (ciborium scratch buffer of 4096 bytes)', 'an IR holding a Bytes / Address / Hash value (or UTxO txid / address) longer than 4096 bytes'),
+ 'C11-D': ('C11', 'directive data map pre-sized from the declared CBOR map length', 'a valid encoding up to the data map of a directive whose map header declares a huge length'),
+ 'C12-C': ('C12', 'bool grammar rule made non-atomic with a look-ahead: the pair text includes trailing whitespace, bool_parse unwraps', 'a boolean literal followed by whitespace or a comment before the next token'),
+ 'C12-D': ('C12', 'shared-scope fallback in type resolution guarded by an off-by-one pass counter, so it never fires', 'a policy / asset definition whose expression holds a constructor, property access or index, plus at least one alias or custom-typed field'),
+ 'C13-C': ('C13', 'FnCall arity / callable checks run before the callee is resolved', 'a call mistake (arity, non-callable name) in a part of the tx analysed only once (mint, burn, validity, metadata, signers, reference, collateral, cardano::*)'),
+ 'C14-C': ('C14', 'Expression::as_number reads a one-element asset list as its amount', 'a constant asset whose amount is itself a single-asset value (Ada(fees) after apply_fees, or client IR) in Add / Sub / Negate or as min_amount'),
+ 'C14-D': ('C14', 'reducer error messages truncated with String::truncate(256)', "a failing reduction whose operand's Debug text is longer than 256 bytes with a multi-byte character across byte 256"),
+ 'C15-C': ('C15', 'value -> asset-expression list conversion keyed by policy bytes ++ name bytes', 'one value holding two classes whose policy ++ name concatenations coincide (Defined("ab","c") / Defined("a","bc"), Defined(p,"") / Named(p))'),
+ 'C16-C': ('C16', 'Expression::params returns nothing below a compiler built-in', 'a request supplying a parameter the template uses only inside a compiler-op operand'),
+ 'C16-D': ('C16', 'hex-prefix helper slices the string at byte offset 2', 'a string value whose byte 2 is not a character boundary ("1€", "日本")'),
+ 'C17-C': ('C17', 'collision check between globals sorts the spellings (case-sensitively) and compares neighbours (case-insensitively)', 'two env vars / parties differing only in letter case with a third global sorting strictly between them'),
+ 'C17-D': ('C17', 'lower() looks the template up ignoring ASCII case', 'two txs whose names are equal ignoring case with different argument keys'),
+ 'C18-C': ('C18', 'TII profiles lower-cased when filed, collected in their original spelling in a hash set', 'one profile named in two spellings (--profile Preview --profile-env-file preview:file) whose env file contributes values'),
+ 'C19-C': ('C19', "a negation's span runs from the operator to the end of its operand, but literals carry the dummy span (0,0)", '!1 or !true where the analyzer locates a diagnostic at the expression (metadata key, withdrawal amount, asset policy)'),
+ 'C20-C': ('C20', 'per-output min_utxo sizes cached in the compiler outlive reset()', 'an earlier resolution on the instance aborted in pass >= 2 (after the compiler ops ran, before compile), then a template using min_utxo on that output index at a tight balance'),
+ 'C20-D': ('C20', 'resolve_tx resets the compiler on exit instead of on entry', 'a history containing a direct Compiler::compile() (not through resolve_tx), then a min_utxo template sensitive to its first pass'),
 }
 # seed -> (detected by the target check when first tried?, what was strengthened to detect it / remark)
 HISTORY = {
@@ -79,6 +95,15 @@ HISTORY = {
  'C07-D': (False, 'generator: compiler built-ins over arithmetic on a parameter'),
  'C09-C': (False, 'generator: case / field names that differ in letter case only'),
  'C10-C': (False, 'C10: another cost model in every case (salted), so process-wide state shows in the script-data hash'),
+ 'C11-C': (False, 'tirgen: byte strings on both sides of 4096 and 64 KiB'),
+ 'C14-D': (False, 'tirgen: long texts whose multi-byte characters fall on every byte alignment'),
+ 'C15-C': (False, 'C15: class families over a two-letter alphabet whose policy ++ name concatenations coincide'),
+ 'C16-C': (False, 'C16: the declared set is found by walking the serialised IR, not by the params() traversal the request parser itself uses'),
+ 'C16-D': (False, 'C16: non-ASCII strings as ill-formed values and in random JSON'),
+ 'C17-D': (False, 'generator: tx names that differ in letter case only (and identical tx names, which found a genuine defect, see section 12.1)'),
+ 'C18-C': (False, "C18: profile names in several spellings for --profile and --profile-env-file, env files with the program's real env vars and parties"),
+ 'C20-C': (False, 'C20: history steps that fail late (just below the minimum a fresh instance needs)'),
+ 'C20-D': (False, 'C20: history steps that compile (or only evaluate compiler operators) directly on the instance'),
 }
 matrix = collections.defaultdict(dict)
 mp = os.path.join(ROOT, 'MATRIX.tsv')
